@@ -91,13 +91,35 @@ def _user(case, lean):
     UV = m.user_vectors_.to_dense().numpy(); UR = m.user_ratings_.toarray()
     RM = ds.interactions().matrix().scipy(layout="csr").toarray() > 0
     failed = []; corr = True; over_k = 0
+    V = [int(x) for x in ds.items.ids()]
+    queries = []
     for u in list(ds.users.ids())[:4]:
         un = m.users_.number(u)
-        sims = (UV @ UV[un]).astype("f4"); sims[un] = 0
+        queries.append((f"user {u} by id", RecQuery(user_id=u), UV[un], float(m.user_means_[un]) if explicit else 0.0, un))
+        # the same user with a history supplied at scoring time: re-rated (explicit) / extended by an item (implicit) — the query vector is
+        # built from the supplied history (centred on ITS mean, unit length), the user's stored vector and mean play no part
+        hist = ds.user_row(u)
+        hids = [int(i) for i in hist.ids()]
+        if explicit:
+            rts = [float(6 - r) if k_ % 2 else float(r) for k_, r in enumerate(hist.field("rating"))]
+            qh = ItemList(item_ids=hids, rating=rts); mu = float(np.mean(np.array(rts, dtype="f4")))
+            vec = np.zeros(len(V), dtype="f4"); vec[[V.index(i) for i in hids]] = np.array(rts, dtype="f4") - np.float32(mu)
+        else:
+            extra = [i for i in V if i not in hids][:1]
+            qh = ItemList(item_ids=hids + extra + [987654]); mu = 0.0
+            vec = np.zeros(len(V), dtype="f4"); vec[[V.index(i) for i in hids + extra]] = 1.0
+        nv = float(np.linalg.norm(vec))
+        if nv > 0:
+            queries.append((f"user {u} with a supplied history", RecQuery(user_id=u, user_items=qh), vec / nv, mu, un))
+            queries.append((f"unknown user with the history of {u}", RecQuery(user_id=424242, user_items=qh), vec / nv, mu, None))
+    for label, qobj, qvec, umean, un in queries:
+        u = label
+        sims = (UV @ qvec).astype("f4")
+        if un is not None: sims[un] = 0
         if any(abs(float(s) - ms) < min(1e-5, ms / 2) for s in sims): continue     # float rounding at the threshold decides membership
         items = ItemList(item_ids=list(ds.items.ids()))
-        sc = m(RecQuery(user_id=u), items).scores()
-        umean = float(m.user_means_[un]) if explicit else 0.0
+        try: sc = m(qobj, items).scores()
+        except Exception as e: corr = False; failed.append(f"{label}: raised {type(e).__name__}"); continue
         qual = [v for v in range(len(sims)) if sims[v] >= ms]
         for t in range(len(items)):
             nbrs = [[v, rat(sims[v]), rat(UR[v, t]) if RM[v, t] else "0"] for v in qual]
@@ -110,7 +132,7 @@ def _user(case, lean):
             real = None if np.isnan(sc[t]) else float(sc[t]) - umean
             mod = None if res["impl"] is None else float(Fraction(res["impl"]))
             ok = (real is None and mod is None) or (real is not None and mod is not None and _near(real, mod, 2e-4))
-            if not ok or res["impl"] != res["def"]: corr = False; failed.append(f"score(user {u}, item {t}) = {real}, definition {mod}")
+            if not ok or res["impl"] != res["def"]: corr = False; failed.append(f"score({u}, item {t}) = {real}, definition {mod}")
     return corr, failed, over_k
 
 def run(case: dict, lean: Lean) -> Outcome:
